@@ -165,6 +165,7 @@ type world struct {
 	big    []byte
 	names  []string
 	mnames []string
+	bigs   [][]byte // several big files (C14: overlapping background frees)
 	tdirs  [][]byte // DirMoves: root followed by the directories t0..t3
 	first  [][]*Op  // per client: requests issued before the generated ones
 }
@@ -295,6 +296,20 @@ func genConcOp(r *Rng, w *world, mine *[][]byte, uid *uint64, cfg ConcCfg) *Op {
 			return &Op{K: OpRename, H: w.dirs[0], Name: nm(), H2: d, Name2: nm()}
 		default:
 			return &Op{K: OpReaddirplus, H: d, Count: 1 << 20, Dircount: 1 << 20}
+		}
+	}
+	if cfg.BigBias && len(w.bigs) > 0 && r.Intn(2) == 0 {
+		// several big files freed by different clients: background frees start
+		// and finish next to each other
+		k := r.Intn(len(w.bigs))
+		switch r.Intn(3) {
+		case 0:
+			return &Op{K: OpRemove, H: w.dirs[0], Name: fmt.Sprintf("big%d", k)}
+		case 1:
+			return &Op{K: OpSetattr, H: w.bigs[k], SetSize: true, Size: r.Pick([]uint64{0, 5000, 20 * BlockSize})}
+		default:
+			*uid++
+			return &Op{K: OpWrite, H: w.bigs[k], Off: r.Pick([]uint64{0, 100 * BlockSize, 550 * BlockSize}), Count: 4096, DataLen: 4096, Uid: *uid, Stable: r.Intn(3)}
 		}
 	}
 	if cfg.BigBias && w.big != nil && r.Intn(4) == 0 {
@@ -539,6 +554,18 @@ func runOneHistory(cfg ConcCfg, seed uint64, cas, h int, res *ConcRes) {
 		for k := 0; k < 10 && w.big != nil; k++ {
 			uid++
 			s.exec(&Op{K: OpWrite, H: w.big, Off: uint64(k) * 60 * BlockSize, Count: 60 * BlockSize, DataLen: 60 * BlockSize, Uid: uid, Stable: 0})
+		}
+	}
+	if cfg.BigBias && cfg.NoCheck {
+		for b := 0; b < 4; b++ {
+			fh := mk(OpCreate, srv.Root, fmt.Sprintf("big%d", b))
+			for k := 0; k < 9 && fh != nil; k++ {
+				uid++
+				s.exec(&Op{K: OpWrite, H: fh, Off: uint64(k) * 64 * BlockSize, Count: 64 * BlockSize, DataLen: 64 * BlockSize, Uid: uid, Stable: 0})
+			}
+			if fh != nil {
+				w.bigs = append(w.bigs, fh)
+			}
 		}
 	}
 	if cfg.AbortHammer {
